@@ -78,20 +78,51 @@ def solve_one(text, timeout_s=10.0, want_model=False, backends=None):
         }
 
 
+def solve_multi(variants, timeout_s=10.0, backends=None):
+    """variants: [(label, text, is_full)].  All (variant x back end) runs race; the first `unsat` wins
+    (every variant has a subset of the hypotheses, so unsat of any of them proves the obligation);
+    `sat` is believed only from the full query."""
+    bks = backends or (list(BACKENDS.items())[:2])
+    jobs = [(lab, txt, full, bn, cmd) for (lab, txt, full) in variants for (bn, cmd) in bks]
+    results = {}
+    final = {}
+    done = threading.Event()
+    lock = threading.Lock()
+
+    def work(lab, txt, full, bn, cmd):
+        r = run_backend(bn, cmd, txt, timeout_s)
+        with lock:
+            results[bn + "/" + lab] = r
+            if "status" not in final and (r[0] == "unsat" or (r[0] == "sat" and full)):
+                final.update(status=r[0], backend=bn, variant=lab, time=r[2], detail=r[1])
+                done.set()
+            if len(results) == len(jobs):
+                done.set()
+
+    for j in jobs:
+        threading.Thread(target=work, args=j, daemon=True).start()
+    done.wait(timeout_s + 10)
+    with lock:
+        tried = {n: (r[0], round(r[2], 3)) for n, r in results.items()}
+        if "status" in final:
+            final["tried"] = tried
+            return dict(final)
+        return {"status": "unknown", "backend": None, "variant": None, "time": timeout_s,
+                "detail": "\n".join(r[1] for r in results.values())[:3000], "tried": tried}
+
+
 def discharge(cx, obligations, timeout_s=10.0, jobs=None, progress=None):
     """fills ob.result for every obligation"""
     jobs = jobs or max(1, NCPU // 2)
     t0 = time.time()
 
     def one(ob):
-        r = solve_one(cx.query(ob, relevant=True), min(timeout_s, 4.0))
+        qs = cx.query(ob, relevant=True, level="same")
+        r = solve_multi([("rel", cx.query(ob, relevant=True), False), ("full", cx.query(ob), True)] + ([("same", qs, False)] if qs else []), timeout_s)
         if r["status"] != "unsat":
-            r = solve_one(cx.query(ob, relevant=True, level=0), min(timeout_s, 8.0))
-        if r["status"] != "unsat":
-            # hypotheses were only dropped, never added: anything but unsat is re-posed in full
-            r = solve_one(cx.query(ob), timeout_s)
-        else:
-            r["filtered"] = True
+            r2 = solve_multi([("dir", cx.query(ob, relevant=True, level=0), False)], min(timeout_s, 10.0))
+            if r2["status"] == "unsat":
+                r = r2
         ob.result = r
         return ob
 
